@@ -35,10 +35,14 @@ CFG = {
     "trivial_tags": ["plain"],
     "rule": "exhaustive: every ordered pair of duplicate-free key sequences of length <= 5 over 6 keys (1237^2 = 1 530 169 transitions, "
             "one `trans` op each, grouped in one case per source sequence; sibling/block-size shapes cycle per case; every 16th case "
-            "through leptos <ForEnumerate>); plus n seeded random histories (init + 1..6 ops: reverse/rotate/swap/remove/insert/clear/"
-            "front-insert-move/shuffle/replace/append/move-one/random, sib, remount) over alphabets of 3..12 keys, length <= 8, "
-            "1..3 nodes per item, 0..2 siblings on each side, a quarter through <ForEnumerate>; distinct = distinct op lines of a case; "
-            "non-trivial = every case (each performs at least one list operation). THOROUGH tier additionally: every ordered pair of "
+            "through leptos <ForEnumerate>); plus n seeded random histories (init + 1..7 ops) over alphabets of 3..12 keys, length <= 8, "
+            "0..2 siblings on each side, in four modes: keyed() with one of 15 item shapes (1..3 elements, text nodes, `()`/`None` members, "
+            "Vec fragments, a static keyed list as the item), a fifth of them built unmounted (parent = None) and mounted later before an "
+            "existing sibling; nested keyed lists whose inner lists are updated on their own; <ForEnumerate> over a signal; <ForEnumerate> "
+            "over a keyed store field (reactive_stores KeyedSubfield, rows written through the write guard or `.set`, labels through AtKeyed). "
+            "Ops: update (reverse/rotate/swap/remove/insert/clear/front-insert-move/shuffle/replace/append/move-one/random/"
+            "reverse-behind-new/drop-front-pull), sib (insert_before_this), unmount, mount <anchor>, remount, inner, label; distinct = distinct "
+            "op lines of a case; non-trivial = every case (each performs at least one list operation). THOROUGH tier additionally: every ordered pair of "
             "duplicate-free sequences of length <= 6 over 7 keys (8660^2 = 74 995 600 transitions) is run on the real code inside the "
             "generator (all cores) and judged by the implementation-side oracle; every transition it rejects (none since the repair of "
             "F-C11-1; 211 680 before) and every 64th other one is written to the ops file and replayed through the model (cases y<i>)",
@@ -48,12 +52,18 @@ CFG = {
         "on_cleanup as the unmount observation and the index signal read back after every update",
     ],
     "modelled": ["tachys::view::keyed::{diff, group_adjacent_moves, unpack_moves, apply_diff}", "Keyed::{build, rebuild}",
-                 "KeyedState::{mount, unmount, insert_before_this, elements}", "VecExt::get_next_closest_mounted_sibling",
+                 "KeyedState::{mount, unmount, insert_before_this, elements, parent}", "VecExt::get_next_closest_mounted_sibling",
+                 "Mountable of text nodes, `()`, Option/Either placeholders, Vec fragments and nested KeyedState as item blocks",
+                 "<ForEnumerate> over reactive_stores KeyedSubfield::into_iter / AtKeyed (keys and labels per row)",
                  "Mountable for elements and tuples of elements (mount / unmount / insert_before_this)",
                  "leptos ForEnumerate (same keyed() under an OwnedView per item; set_index = signal write)"],
     "assumptions": ["key sequences are duplicate-free (IndexSet drops a repeated key; the property quantifies over duplicate-free sequences)",
-                    "item views are non-empty blocks of elements (1..3 nodes); reactive_stores' keyed fields are not exercised (separate code path, C16)",
-                    "the list is mounted (parent = Some) when it is rebuilt"],
+                    "every item view owns at least one DOM node and keeps the same nodes while the outer list holds it, except nested keyed lists, "
+                    "which may be updated on their own (C11_nested_*); items whose node set changes for other reasons (a reactive child that swaps "
+                    "its own nodes) are C04's subject",
+                    "one parent element (a list is not moved to a different parent)",
+                    "store mode: rows are written through the keyed write guard or `.set` on the field; a whole-store `store.set(..)` shows F-C16-5 "
+                    "(stale key table) as a wrong row label in the DOM and is left to C16"],
     "manifest": {
         "category": "proof",
         "text": "Lean 4 theorems about an executable model of tachys' keyed diff (diff, group_adjacent_moves, unpack_moves, apply_diff verbatim "
